@@ -33,7 +33,7 @@ template <typename T>
 #endif
         }
     }
-    return detail::gcem::fmod(x, y);
+    return detail::gcem::remainder(x, y);
 }
 
 } // namespace detail
